@@ -333,7 +333,7 @@ def work(item: dict) -> dict:
     for ci, cfg in enumerate(item["cfgs"]):
         gen = GenerationConfig(graphql_allow_null=cfg[0], allow_x00=cfg[1], codec="ascii" if cfg[2] else "utf-8")
         plans = [("getitem-query-first", ops)]
-        if ci == 0:
+        if ci == 0 and item.get("all_access", True):
             plans += [("getitem-mutation-first", list(reversed(ops))), ("get_all_operations", ops)]
         for access, order in plans:
             schema = _load(view, loader)  # fresh object: the operation cache starts empty for each access order
@@ -451,6 +451,8 @@ def _arg_features(view: dict, d: dict, rule: str) -> str:
                 if pred is None or _value_has(a["value"], pred):
                     if top and s["name"] == "f" and optype == "query" and a["name"] in decl:
                         feats.add("arg:%s" % decl[a["name"]]["base"])      # the declared named type; wrappers do not matter for the class
+                    elif s["name"] in ("x", "y") and a["name"] == "m" and view["shape"].get("marg", {}).get("base"):
+                        feats.add("member-arg:%s" % view["shape"]["marg"]["base"])     # argument of a field reached through an inline fragment
                     else:
                         feats.add("arg:%s.%s" % (s["name"], a["name"]))
             walk(s["sels"], False, optype)
@@ -660,7 +662,7 @@ def evaluate_histories(ctx: Ctx, out: Outcome, cases: list[dict], results: list[
     docs = [d for r in results for d in r["docs"]]
     obs = [{"k": "hdoc", "s": sidx[json.dumps(cases[d["h"]]["shape"], sort_keys=True)], "hist": cases[d["h"]]["hist"], "step": d["step"],
             "doc": d["doc"]} for d in docs]
-    bad, judged, t_judge = judge(ctx, shapes or [{"args": [], "ret": "scalar", "mut": "none", "names": "std", "sub": False}], obs, tag)
+    bad, judged, t_judge = judge(ctx, shapes or [{"args": [], "ret": "scalar", "mut": "none", "names": "std", "sub": False, "marg": {"base": "", "wrap": ""}}], obs, tag)
     discrepancies = 0
     for i, d in enumerate(docs):
         case = cases[d["h"]]
@@ -720,17 +722,21 @@ def run(ctx: Ctx) -> Outcome:
                                         {"kind": "spec", "invariant": inv, "trace": res.counterexample[:60]}))
     loaders = ["sdl", "json"]
     cfgs = CFGS_QUICK if ctx.quick else CFGS_THOROUGH
-    n = 9 if ctx.quick else 12
+    n = 8 if ctx.quick else 12
     items = []
     for s, view in enumerate(views):
         for li, loader in enumerate(loaders):
+            if ctx.quick and loader == "json" and s % 2:
+                continue        # quick: the JSON front doors on every second shape (thorough: on all)
             ld = loader
             if loader == "json" and s % 7 == 3:
                 ld = ["json-data", "file-json"][s % 2]     # the other front doors of the same loaders, on a slice of the family
             if loader == "sdl" and s % 7 == 5:
                 ld = "path"
             # SDL loader: all generation configs of the tier; JSON loaders: 2 of them
-            items.append({"s": s, "view": view, "loader": ld, "cfgs": cfgs if loader == "sdl" else CFGS_QUICK[::3], "n": n, "seed": (ctx.seed * 1000003 + s * 17 + li) % (2 ** 31)})
+            items.append({"s": s, "view": view, "loader": ld, "cfgs": cfgs if loader == "sdl" else CFGS_QUICK[::3], "n": n,
+                          # the other access orders matter where a Mutation type exists; elsewhere on a slice of the family in the quick tier
+                          "all_access": (not ctx.quick) or view["shape"]["mut"] != "none" or s % 4 == 0, "seed": (ctx.seed * 1000003 + s * 17 + li) % (2 ** 31)})
     t1 = time.time()
     results = common.pmap(work, items, chunk=1)
     t_draw = time.time() - t1
@@ -741,7 +747,7 @@ def run(ctx: Ctx) -> Outcome:
         out.violations.append(Violation("C20:spec:" + inv, "design invariant %s violated in GraphQLHistory.tla" % inv,
                                         {"kind": "spec", "invariant": inv, "trace": hres.counterexample[:60]}))
     t2 = time.time()
-    hitems = [{"h": h, "case": c, "loader": "sdl" if h % 2 == 0 else "json", "n": 6 if ctx.quick else 10,
+    hitems = [{"h": h, "case": c, "loader": "sdl" if h % 2 == 0 else "json", "n": 5 if ctx.quick else 10,
                "seed": (ctx.seed * 7919 + h * 31) % (2 ** 31)} for h, c in enumerate(hcases)]
     hresults = common.pmap(work_history, hitems)
     t_hist = time.time() - t2
@@ -840,7 +846,7 @@ def selftest(ctx: Ctx) -> bool:
 
     import graphql
 
-    shape = {"args": [{"name": "a", "base": "Int", "wrap": "T!"}], "ret": "object", "mut": "same", "names": "std", "sub": False}
+    shape = {"args": [{"name": "a", "base": "Int", "wrap": "T!"}], "ret": "object", "mut": "same", "names": "std", "sub": False, "marg": {"base": "", "wrap": ""}}
     cfg = {"allowNull": False, "allowX00": False, "ascii": False}
     good = {"k": "doc", "s": 1, "cfg": cfg, "root": "query", "field": "f",
             "doc": project_doc(graphql.parse('{ f(a: 5) { id child { tag(n: 1, c: RED) } } }', no_location=True))}
@@ -862,10 +868,10 @@ def selftest(ctx: Ctx) -> bool:
     def st(a, cfg=dflt, has=False, root="", field="", kind=""):
         return {"a": a, "cfg": cfg, "has": has, "root": root, "field": field, "kind": kind}
 
-    hshape = {"args": [{"name": "a", "base": "Inner", "wrap": "[T]"}], "ret": "scalar", "mut": "none", "names": "std", "sub": False}
+    hshape = {"args": [{"name": "a", "base": "Inner", "wrap": "[T]"}], "ret": "scalar", "mut": "none", "names": "std", "sub": False, "marg": {"base": "", "wrap": ""}}
     hist = [st("draw", root="query", field="f"), st("configure", cfg=strict), st("draw", root="query", field="f")]
     hdoc = project_doc(graphql.parse('{ f(a: [{a: 1, b: "\u00e9"}, null]) }', no_location=True))
-    rshape = {"args": [{"name": "a", "base": "Reg", "wrap": "T"}], "ret": "scalar", "mut": "none", "names": "std", "sub": False}
+    rshape = {"args": [{"name": "a", "base": "Reg", "wrap": "T"}], "ret": "scalar", "mut": "none", "names": "std", "sub": False, "marg": {"base": "", "wrap": ""}}
     rhist = [st("draw", root="query", field="f"), st("register", kind="int"), st("draw", dflt, True, "query", "f")]
     rdoc = project_doc(graphql.parse('{ f(a: "r1") }', no_location=True))
     hobs = [{"k": "hdoc", "s": 2, "hist": hist, "step": 1, "doc": hdoc}, {"k": "hdoc", "s": 2, "hist": hist, "step": 3, "doc": hdoc},
